@@ -151,7 +151,7 @@ Proof. unfold write_at. cases_if'; cbn [fst snd]; auto; discriminate. Qed.
 
 Lemma b_errors_change_nothing_lemma s o : snd (b_step s o) = BErr -> fst (b_step s o) = s.
 Proof.
-  destruct o as [n|a|h|h n|w k be h off|w sg be h off v|w be h off bits|sh so dh doff len|h off len v|h|h1 h2|bs|h off len|h off bs|h st sp nd|h off len|h i j]; cbn [b_step].
+  destruct o as [n|a|h|h n|w k be h off|w sg be h off v|w be h off bits|sh so dh doff len|h off len v|h|h1 h2|bs|h off len|h off bs|h st sp nd|h off len|h i j|]; cbn [b_step].
   - cases_if'; cbn [fst snd]; auto. destruct (store_resource s (repeat 0 (Z.to_nat n))). cbn. discriminate.
   - destruct a as [z| |]; cases_if'; cbn [fst snd]; auto; discriminate.
   - cases_if'; cbn [fst snd]; auto.
@@ -170,6 +170,7 @@ Proof.
   - (* find *) cases_if'; cbn [fst snd]; auto.
   - (* reverse *) cases_if'; cbn [fst snd]; auto; discriminate.
   - (* swap *) cases_if'; cbn [fst snd]; auto; discriminate.
+  - reflexivity.
 Qed.
 
 (* ------------------------------------------------------------------ bounds *)
@@ -372,7 +373,7 @@ Lemma b_isolation_lemma s o k d :
   get_buf s k = Some d -> bop_writes o <> Some (Z.of_N k) -> get_buf (fst (b_step s o)) k = Some d.
 Proof.
   intros Hg Hw. rewrite <- Hg.
-  destruct o as [n|a|h|h n|w kd be h off|w sg be h off v|w be h off bits|sh so dh doff len|h off len v|h|h1 h2|bs|h off len|h off bs|h st sp nd|h off len|h i j];
+  destruct o as [n|a|h|h n|w kd be h off|w sg be h off v|w be h off bits|sh so dh doff len|h off len v|h|h1 h2|bs|h off len|h off bs|h st sp nd|h off len|h i j|];
     cbn [b_step bop_writes] in *.
   - destruct (n <=? 0)%Z; [reflexivity|]. destruct (MAX_ALLOC <? Z.to_N n); [reflexivity|].
     destruct (store_resource s (repeat 0 (Z.to_nat n))) as [s' h0] eqn:E. cbn [fst].
@@ -421,6 +422,7 @@ Proof.
     destruct (get_buf s (Z.to_N h)) as [d0|]; [|reflexivity].
     destruct (nth_N d0 (Z.to_N i)); [|reflexivity]. destruct (nth_N d0 (Z.to_N j)); [|reflexivity].
     cbn [fst]. apply get_buf_set_ne. intro Hk. apply Hw. f_equal. lia.
+  - reflexivity.
 Qed.
 
 (* allocation hands out a handle that was not live, with a zeroed buffer of the requested size *)
@@ -613,7 +615,7 @@ Lemma b_refines_lemma s m o :
   /\ BSim (fst (b_step s o)) (fst (bspec_step m o (snd (b_step s o)))).
 Proof.
   intro HS.
-  destruct o as [n|a|h|h n|w k be h off|w sg be h off v|w be h off bits|sh so dh doff len|h off len v|h|h1 h2|bs|h off len|h off bs|h st sp nd|h off len|h i j];
+  destruct o as [n|a|h|h n|w k be h off|w sg be h off v|w be h off bits|sh so dh doff len|h off len v|h|h1 h2|bs|h off len|h off bs|h st sp nd|h off len|h i j|];
     cbn [b_step bspec_step].
   - (* alloc *)
     destruct (n <=? 0)%Z; [bsim_done HS|]. destruct (MAX_ALLOC <? Z.to_N n); [bsim_done HS|].
@@ -693,6 +695,7 @@ Proof.
     unfold buf, byte, value in *.
     destruct (nth_N d (Z.to_N i)); [|bsim_done HS]. destruct (nth_N d (Z.to_N j)); [|bsim_done HS].
     cbn [fst snd]. split; [reflexivity|]. apply bsim_set; [exact HS|eapply get_buf_lt; exact Hg].
+  - (* non-int operand *) bsim_done HS.
 Qed.
 
 Lemma b_run_cons s o r :
@@ -722,7 +725,7 @@ Qed.
 (* b_step never answers BBad, hence (by refinement) the specification never objects *)
 Lemma b_step_not_bad s o : snd (b_step s o) <> BBad.
 Proof.
-  destruct o as [n|a|h|h n|w k be h off|w sg be h off v|w be h off bits|sh so dh doff len|h off len v|h|h1 h2|bs|h off len|h off bs|h st sp nd|h off len|h i j];
+  destruct o as [n|a|h|h n|w k be h off|w sg be h off v|w be h off bits|sh so dh doff len|h off len v|h|h1 h2|bs|h off len|h off bs|h st sp nd|h off len|h i j|];
     cbn [b_step]; try (destruct a); unfold write_at;
     repeat match goal with
            | |- context [if ?c then _ else _] => destruct c
@@ -795,7 +798,7 @@ Proof.
   intros Hg Hnr Hnf.
   destruct (option_Z_dec (bop_writes o) (Some (Z.of_N k))) as [Hw|Hw];
     [|exists d; split; [apply b_isolation_lemma; assumption|reflexivity]].
-  destruct o as [n|a|h|h n|w kd be h off|w sg be h off v|w be h off bits|sh so dh doff len|h off len v|h|h1 h2|bs|h off len|h off bs|h st sp nd|h off len|h i j];
+  destruct o as [n|a|h|h n|w kd be h off|w sg be h off v|w be h off bits|sh so dh doff len|h off len v|h|h1 h2|bs|h off len|h off bs|h st sp nd|h off len|h i j|];
     cbn [bop_writes] in Hw; try discriminate; cbn [b_step].
   - destruct a as [z| |]; try discriminate. inversion Hw; subst z. exfalso. apply Hnf. reflexivity.
   - inversion Hw; subst h. exfalso. apply (Hnr n). reflexivity.
@@ -894,4 +897,36 @@ Proof.
   split; intros x ->; cbn [mem_step].
   - destruct (mh_step (fst st) x). reflexivity.
   - destruct (b_step (snd st) x). reflexivity.
+Qed.
+
+(* ------------------------------------------------------------------ negative offsets / lengths / indices *)
+Lemma b_negative_operand_rejected_lemma s h :
+  (forall w k be off, (off < 0)%Z -> b_step s (BRead w k be h off) = (s, BErr))
+  /\ (forall w sg be off v, (off < 0)%Z -> b_step s (BWrite w sg be h off v) = (s, BErr))
+  /\ (forall w be off bits, (off < 0)%Z -> b_step s (BWriteF w be h off bits) = (s, BErr))
+  /\ (forall off len v, (off < 0 \/ len < 0)%Z -> b_step s (BFill h off len v) = (s, BErr))
+  /\ (forall so dh doff len, (so < 0 \/ doff < 0 \/ len < 0)%Z -> b_step s (BCopy h so dh doff len) = (s, BErr))
+  /\ (forall off len, (off < 0 \/ len < 0)%Z -> b_step s (BDecode h off len) = (s, BErr))
+  /\ (forall off bs, (off < 0)%Z -> b_step s (BWriteString h off bs) = (s, BErr))
+  /\ (forall st sp nd, (st < 0)%Z -> b_step s (BFind h st sp nd) = (s, BErr))
+  /\ (forall off len, (off < 0 \/ len < 0)%Z -> b_step s (BReverse h off len) = (s, BErr))
+  /\ (forall i j, (i < 0 \/ j < 0)%Z -> b_step s (BSwap h i j) = (s, BErr))
+  /\ (forall n, (n <= 0)%Z -> b_step s (BAlloc n) = (s, BErr) /\ b_step s (BResize h n) = (s, BErr)).
+Proof.
+  assert (Hw : forall off bs, (off < 0)%Z -> write_at s h off bs = (s, BErr)).
+  { intros off bs Ho. unfold write_at. destruct (h <? 0)%Z; [reflexivity|]. replace (off <? 0)%Z with true by lia. reflexivity. }
+  repeat split; intros; cbn [b_step].
+  - replace (off <? 0)%Z with true by lia. cases_if'; reflexivity.
+  - destruct (writer_range w sg be) as [[lo hi]|]; [|reflexivity]. replace (off <? 0)%Z with true by lia. cases_if'; reflexivity.
+  - cases_if'; try reflexivity; apply Hw; assumption.
+  - destruct (h <? 0)%Z; [reflexivity|]. destruct (off <? 0)%Z eqn:E; [reflexivity|]. replace (len <? 0)%Z with true by lia. reflexivity.
+  - destruct (h <? 0)%Z; [reflexivity|]. destruct (so <? 0)%Z eqn:E1; [reflexivity|]. destruct (dh <? 0)%Z; [reflexivity|].
+    destruct (doff <? 0)%Z eqn:E2; [reflexivity|]. replace (len <? 0)%Z with true by lia. reflexivity.
+  - destruct (h <? 0)%Z; [reflexivity|]. destruct (off <? 0)%Z eqn:E; [reflexivity|]. replace (len <? 0)%Z with true by lia. reflexivity.
+  - rewrite Hw by assumption. reflexivity.
+  - destruct (h <? 0)%Z; [reflexivity|]. replace (st <? 0)%Z with true by lia. reflexivity.
+  - destruct (h <? 0)%Z; [reflexivity|]. destruct (off <? 0)%Z eqn:E; [reflexivity|]. replace (len <? 0)%Z with true by lia. reflexivity.
+  - destruct (h <? 0)%Z; [reflexivity|]. destruct (i <? 0)%Z eqn:E; [reflexivity|]. replace (j <? 0)%Z with true by lia. reflexivity.
+  - replace (n <=? 0)%Z with true by lia. reflexivity.
+  - destruct (h <? 0)%Z; [reflexivity|]. replace (n <=? 0)%Z with true by lia. reflexivity.
 Qed.
